@@ -232,6 +232,25 @@ def lehmer_scenarios(tier, rng):
         if r0 >= r1:
             sc.append({"g": "kern", "op": "klehmer_prefix128", "a": tobytes(r0), "b": tobytes(r1),
                        "ext": exts(0)[:1] + exts(1) + exts(64)})
+    # from_u128_prefix is public and normalises by itself: prefixes of ANY size, in particular below 2^64 and below 2^63 (the
+    # callers inside the crate only ever pass a first operand with its top limb occupied)
+    small = [(252, 105), (5, 3), (1, 0), (1, 1), (2, 1), (3, 2), ((1 << 63) - 1, (1 << 62) + 1), (1 << 63, 1), ((1 << 64) - 1, (1 << 64) - 2),
+             (1 << 64, (1 << 64) - 1), ((1 << 32) + 1, 1 << 32), (1 << 33, (1 << 32) - 1), (10 ** 18, 10 ** 9 + 7), ((1 << 127) + 1, 1 << 126)]
+    for _ in range(30 if quick else 300):
+        k = rng.randrange(2, 127)
+        r0 = rng.getrandbits(k) | (1 << (k - 1))
+        small.append((r0, rng.randrange(0, r0 + 1)))
+        small.append((r0, r0 - rng.getrandbits(rng.randrange(1, k))))
+    fib = [1, 1]
+    while fib[-1] < 1 << 126:
+        fib.append(fib[-1] + fib[-2])
+    small += [(fib[i + 1], fib[i]) for i in range(2, len(fib) - 1, 5 if quick else 1)]
+    for r0, r1 in dict.fromkeys(small):
+        if r0 >= r1 >= 0 and r0 > 0:
+            # below 2^64 the normalised 64-bit window holds padding zeros, so the matrix is claimed for the EXACT pair only (this is
+            # how LehmerMatrix::from uses it: numbers of up to 128 bits are passed whole); from 2^64 on it is a prefix matrix
+            ex = exts(0)[:1] if r0 < 1 << 64 else exts(0)[:1] + exts(1) + exts(64)
+            sc.append({"g": "kern", "op": "klehmer_prefix128", "a": tobytes(r0), "b": tobytes(r1), "ext": ex})
     # apply_u128 and compose on small unimodular matrices built from quotient sequences
     def cf_matrix(qs):
         m = [1, 0, 0, 1, True]
